@@ -45,27 +45,15 @@ Theorem C04_tip_longest : forall s, Valid s ->
             (forall r, In r s -> st r = Longest -> r = t \/ height r < height t).
 Proof. exact tip_longest_spec. Qed.
 
-(* by height: only stored rows of the window [h, h+count-1] (count defaults to 1), and all Longest rows in it -
-   whenever h+count-1 fits a 64-bit int; otherwise the Go sum wraps and the statement fails (C04_by_height_overflow_refuted) *)
-Theorem C04_by_height : forall s h c, - two63 <= h + count_of c - 1 < two63 ->
+(* by height, for ALL heights and counts (count defaults to 1): only stored rows of the window [h, h+count-1], and all Longest
+   rows in it (stored heights fit 64 bits - they are int32).  History: before the fix 76f1492 of /repo (= proposed-fixes/C04-2.diff)
+   the end height+count-1 wrapped in Go int arithmetic; that function (Query.by_height_range_before_fix) satisfied the
+   statement only when the sum fits a 64-bit int and was refuted otherwise (QueryExamples.by_height_overflow_refuted_before_fix,
+   formerly C04_by_height_overflow_refuted; finding C04-by-height-int64-overflow, now "fixed"). *)
+Theorem C04_by_height : forall s h c,
   (forall r, In r (by_height_range s h c) -> In r s /\ h <= height r <= h + count_of c - 1) /\
-  (forall r, In r s -> st r = Longest -> h <= height r <= h + count_of c - 1 -> In r (by_height_range s h c)).
+  (forall r, In r s -> height r < two63 -> st r = Longest -> h <= height r <= h + count_of c - 1 -> In r (by_height_range s h c)).
 Proof. exact by_height_spec. Qed.
-
-(* what the code returns for EVERY h, count: the stored rows between h and the wrapped end *)
-Theorem C04_by_height_code : forall s h c r,
-  In r (by_height_range s h c) <-> In r s /\ h <= height r <= window_end h (count_of c).
-Proof. exact by_height_char. Qed.
-
-Theorem C04_by_height_overflow_refuted :
-  exists s h c r, Valid s /\ - two63 <= h < two63 /\ - two63 <= c < two63 /\
-    In r s /\ st r = Longest /\ h <= height r <= h + c - 1 /\ ~ In r (by_height_range s h (Some c)).
-Proof. exact by_height_overflow_refuted. Qed.
-
-(* the proposed repair (build/proposed-fixes/C04-2.diff, Query.by_height_range_fixed) satisfies the statement for all arguments *)
-Theorem C04_by_height_fixed : forall s h c r, (forall x, In x s -> height x < two63) ->
-  (In r (by_height_range_fixed s h c) <-> In r s /\ h <= height r <= h + count_of c - 1).
-Proof. exact by_height_fixed_char. Qed.
 
 (* tips: the Longest tip plus every leaf (row without a stored child) of a Stale or Orphan branch *)
 Theorem C04_tips : forall s, Valid s ->
@@ -136,9 +124,9 @@ Theorem C04_tip_longest_any_work : forall s tip, Inv s tip ->
 Proof. exact tip_longest_inv. Qed.
 
 (* by height needs no invariant at all *)
-Theorem C04_by_height_any_work : forall s h c, InvSome s -> - two63 <= h + count_of c - 1 < two63 ->
+Theorem C04_by_height_any_work : forall s h c, InvSome s ->
   (forall r, In r (by_height_range s h c) -> In r s /\ h <= height r <= h + count_of c - 1) /\
-  (forall r, In r s -> st r = Longest -> h <= height r <= h + count_of c - 1 -> In r (by_height_range s h c)).
+  (forall r, In r s -> height r < two63 -> st r = Longest -> h <= height r <= h + count_of c - 1 -> In r (by_height_range s h c)).
 Proof. exact by_height_any_work. Qed.
 
 Theorem C04_tips_any_work : forall s tip, Inv s tip ->
@@ -169,9 +157,6 @@ Proof. exact common_ancestor_connected_any_work. Qed.
 Print Assumptions C04_lookup.
 Print Assumptions C04_tip_longest.
 Print Assumptions C04_by_height.
-Print Assumptions C04_by_height_code.
-Print Assumptions C04_by_height_fixed.
-Print Assumptions C04_by_height_overflow_refuted.
 Print Assumptions C04_tips.
 Print Assumptions C04_connected_regular.
 Print Assumptions C04_ancestors.
